@@ -1945,8 +1945,13 @@ class Exists(QuantifiedConditional):
         # One result per binding of the free variables (every variable of the condition except a quantified plain
         # variable; the variable an attribute chain starts from is free), compared by identity: true as soon as one value
         # of the quantified expression satisfies the condition, false when none does.
+        # The result of a predicate or of a symbolic function call is a variable as well, but no free one: its value is
+        # computed from its arguments (which are in the list themselves) and differs between a value of the quantified
+        # expression that satisfies the condition and one that does not.
         free_ids = [
-            v._id_ for v in self._all_variable_instances_ if v is not self.variable
+            v._id_
+            for v in self._all_variable_instances_
+            if v is not self.variable and not v._child_vars_
         ]
         # what the quantified expression is computed from is free as well: each element of a collection that is flattened
         # on the way (shelf.boxes -> box -> box.parts) gets its own answer
